@@ -4,136 +4,283 @@ From Ropt Require Import Model.Rng.
 Import ListNotations.
 
 Section Machine.
-  Variables G L V : Type.
+  Variables G T L V : Type.
   Variable drawG : G -> G * V.
   Variable drawL : L -> L * V.
 
-  Notation exec := (@exec G L V drawG drawL).
+  Notation exec := (@exec G T L V drawG drawL).
 
-  (* a sampling program that did not touch the global generator neither read nor wrote it *)
-  Lemma exec_local A (p : prog G V A) : forall g1 l g' l' a,
-    exec p g1 l = (g', l', a, O) -> g' = g1 /\ forall g2, exec p g2 l = (g2, l', a, O).
+  (* a program that did not touch anything neither read nor wrote the generator-like state and did not
+     write the tables: it is a function of the tables' content and of the run-local generator only *)
+  Lemma exec_local A (p : prog G T V A) : forall g1 t l g' t' l' a,
+    exec p g1 t l = (g', t', l', a, O) -> g' = g1 /\ t' = t /\ forall g2, exec p g2 t l = (g2, t, l', a, O).
   Proof.
-    induction p as [a0 | k IH | k IH | s p IH]; intros g1 l g' l' a H; cbn [Rng.exec] in *.
-    - injection H as <- <- <-. split; [reflexivity | intros g2; reflexivity].
-    - destruct (drawL l) as [l1 v]. destruct (IH v g1 l1 g' l' a H) as [E F]. split; [exact E|].
+    induction p as [a0 | k IH | k IH | s p IH | k IH | f p IH]; intros g1 t l g' t' l' a H; cbn [Rng.exec] in *.
+    - injection H as <- <- <- <-. split; [reflexivity|]. split; [reflexivity | intros g2; reflexivity].
+    - destruct (drawL l) as [l1 v]. destruct (IH v g1 t l1 g' t' l' a H) as [E [E' F]]. split; [exact E|]. split; [exact E'|].
       intros g2. apply F.
-    - destruct (drawG g1) as [g1' v]. destruct (exec (k v) g1' l) as [[[g'' l''] a''] t]. discriminate.
-    - destruct (exec p s l) as [[[g'' l''] a''] t]. discriminate.
+    - destruct (drawG g1) as [g1' v]. destruct (exec (k v) g1' t l) as [[[[g'' t''] l''] a''] n]. discriminate.
+    - destruct (exec p s t l) as [[[[g'' t''] l''] a''] n]. discriminate.
+    - apply (IH t g1 t l g' t' l' a H).
+    - destruct (exec p g1 (f t) l) as [[[[g'' t''] l''] a''] n]. discriminate.
   Qed.
 
   Variables Cfg X Req Res Smp : Type.
   Variable seed_of_config : Cfg -> L.
-  Variable sampler : Cfg -> prog G V Smp.
+  Variable init : Cfg -> prog G T V unit.
+  Variable sampler : Cfg -> prog G T V Smp.
   Variable request : Cfg -> X -> option Smp -> Req.
   Variable evaluator : Req -> Res.
   Variable decide : Cfg -> list (Req * Res) -> option (bool * X).
   Variable exit_code : Cfg -> list (Req * Res) -> Z.
 
-  Notation run_from := (@run_from G L V drawG drawL Cfg X Req Res Smp sampler request evaluator decide exit_code).
-  Notation run := (@run G L V drawG drawL Cfg X Req Res Smp seed_of_config sampler request evaluator decide exit_code).
-  Notation process := (@process G L V drawG drawL Cfg X Req Res Smp seed_of_config sampler request evaluator decide exit_code).
-  Notation outcome := (outcome G Req Res).
+  Notation run_from := (@run_from G T L V drawG drawL Cfg X Req Res Smp sampler request evaluator decide exit_code).
+  Notation run := (@run G T L V drawG drawL Cfg X Req Res Smp seed_of_config init sampler request evaluator decide exit_code).
+  Notation process := (@process G T L V drawG drawL Cfg X Req Res Smp seed_of_config init sampler request evaluator decide exit_code).
+  Notation run_as_foreign := (@run_as_foreign G T L V drawG drawL Cfg X Req Res Smp seed_of_config init sampler request evaluator decide exit_code).
+  Notation outcome := (outcome G T Req Res).
+  Notation touches := (o_touches G T Req Res).
+  Notation table := (o_table G T Req Res).
+  Notation global := (o_global G T Req Res).
+  Notation trace := (o_trace G T Req Res).
 
   (* the touch counter only grows *)
-  Lemma run_from_touches_ge fuel : forall cfg s g l hist t,
-    t <= o_touches _ _ _ (run_from fuel cfg s g l hist t).
+  Lemma run_from_touches_ge fuel : forall cfg s g t l hist k,
+    k <= touches (run_from fuel cfg s g t l hist k).
   Proof.
-    induction fuel as [|n IH]; intros cfg s g l hist t; cbn [Rng.run_from].
+    induction fuel as [|n IH]; intros cfg s g t l hist k; cbn [Rng.run_from].
     - destruct (decide cfg hist) as [[p x]|]; cbn; lia.
     - destruct (decide cfg hist) as [[p x]|]; [|cbn; lia].
       destruct (pop G s) as [b1 s1]. destruct p.
-      + destruct (exec (sampler cfg) (apply_foreign G b1 g) l) as [[[g' l'] a] t'].
+      + destruct (exec (sampler cfg) (apply_foreign G b1 g) t l) as [[[[g' t'] l'] a] k'].
         destruct (pop G s1) as [b2 s2]. etransitivity; [|apply IH]. lia.
       + destruct (pop G s1) as [b2 s2]. etransitivity; [|apply IH]. lia.
   Qed.
 
   (* observable part of an outcome *)
-  Definition observable (o : outcome) := (o_trace _ _ _ o, o_exit _ _ _ o, o_complete _ _ _ o).
+  Definition observable (o : outcome) := (trace o, o_exit _ _ _ _ o, o_complete _ _ _ _ o).
 
-  (* NON-INTERFERENCE.  If a run did not itself touch the global generator, then under ANY other
-     schedule of foreign operations and ANY other initial global state it makes exactly the same
-     requests, gets the same results and the same exit code (and again touches nothing). *)
-  Lemma run_from_ni fuel : forall cfg s1 s2 g1 g2 l hist t,
-    o_touches _ _ _ (run_from fuel cfg s1 g1 l hist t) = t ->
-    observable (run_from fuel cfg s2 g2 l hist t) = observable (run_from fuel cfg s1 g1 l hist t) /\
-    o_touches _ _ _ (run_from fuel cfg s2 g2 l hist t) = t.
+  (* NON-INTERFERENCE.  If a run did not itself touch the generator-like state or write the tables, then
+     under ANY other schedule of foreign operations and ANY other initial generator-like state it makes
+     exactly the same requests, gets the same results and the same exit code (and again touches nothing),
+     and it leaves the tables as it found them. *)
+  Lemma run_from_ni fuel : forall cfg s1 s2 g1 g2 t l hist k,
+    touches (run_from fuel cfg s1 g1 t l hist k) = k ->
+    observable (run_from fuel cfg s2 g2 t l hist k) = observable (run_from fuel cfg s1 g1 t l hist k) /\
+    touches (run_from fuel cfg s2 g2 t l hist k) = k /\
+    table (run_from fuel cfg s2 g2 t l hist k) = t /\ table (run_from fuel cfg s1 g1 t l hist k) = t.
   Proof.
-    induction fuel as [|n IH]; intros cfg s1 s2 g1 g2 l hist t H; cbn [Rng.run_from] in *.
-    - destruct (decide cfg hist) as [[p x]|]; split; reflexivity.
-    - destruct (decide cfg hist) as [[p x]|]; [|split; reflexivity].
+    induction fuel as [|n IH]; intros cfg s1 s2 g1 g2 t l hist k H; cbn [Rng.run_from] in *.
+    - destruct (decide cfg hist) as [[p x]|]; repeat split; reflexivity.
+    - destruct (decide cfg hist) as [[p x]|]; [|repeat split; reflexivity].
       destruct (pop G s1) as [b1 r1]. destruct (pop G s2) as [c1 q1]. destruct p.
-      + destruct (exec (sampler cfg) (apply_foreign G b1 g1) l) as [[[g' l'] a] t'] eqn:E1.
+      + destruct (exec (sampler cfg) (apply_foreign G b1 g1) t l) as [[[[g' t'] l'] a] k'] eqn:E1.
         destruct (pop G r1) as [b2 r2]. destruct (pop G q1) as [c2 q2].
-        assert (t' = O) as ->.
-        { pose proof (run_from_touches_ge n cfg r2 (apply_foreign G b2 g') l'
-                        (hist ++ [(request cfg x (Some a), evaluator (request cfg x (Some a)))]) (t + t')) as M.
+        assert (k' = O) as ->.
+        { pose proof (run_from_touches_ge n cfg r2 (apply_foreign G b2 g') t' l'
+                        (hist ++ [(request cfg x (Some a), evaluator (request cfg x (Some a)))]) (k + k')) as M.
           rewrite H in M. lia. }
-        destruct (exec_local Smp (sampler cfg) _ _ _ _ _ E1) as [_ F].
+        destruct (exec_local Smp (sampler cfg) _ _ _ _ _ _ _ E1) as [_ [-> F]].
         rewrite (F (apply_foreign G c1 g2)). rewrite Nat.add_0_r in *. apply IH. exact H.
       + destruct (pop G r1) as [b2 r2]. destruct (pop G q1) as [c2 q2].
         rewrite Nat.add_0_r in *. apply IH. exact H.
   Qed.
 
-  Theorem non_interference fuel cfg s1 s2 g1 g2 :
-    o_touches _ _ _ (run fuel cfg s1 g1) = O ->
-    observable (run fuel cfg s2 g2) = observable (run fuel cfg s1 g1) /\ o_touches _ _ _ (run fuel cfg s2 g2) = O.
-  Proof. unfold Rng.run. apply run_from_ni. Qed.
-
-  (* FRESH PER RUN.  The k-th run of a process -- whatever ran before it, whatever those runs did to
-     the global generator -- is observably the run of the same configuration alone in a fresh
-     process, provided it does not itself touch the global generator. *)
-  Lemma process_nth before : forall fuel cfg s after g,
-    exists g', nth_error (process (before ++ (fuel, cfg, s) :: after) g) (length before) = Some (run fuel cfg s g').
+  Theorem non_interference fuel cfg s1 s2 g1 g2 t :
+    touches (run fuel cfg s1 g1 t) = O ->
+    observable (run fuel cfg s2 g2 t) = observable (run fuel cfg s1 g1 t) /\ touches (run fuel cfg s2 g2 t) = O /\
+    table (run fuel cfg s2 g2 t) = t /\ table (run fuel cfg s1 g1 t) = t.
   Proof.
-    induction before as [|[[f0 c0] s0] before IH]; intros fuel cfg s after g.
-    - exists g. reflexivity.
-    - cbn [app Rng.process length nth_error]. apply IH.
+    unfold Rng.run. intros H.
+    destruct (exec (init cfg) g1 t (seed_of_config cfg)) as [[[[g0 t0] l0] u] k] eqn:E.
+    assert (k = O) as ->.
+    { pose proof (run_from_touches_ge fuel cfg s1 g0 t0 l0 [] k) as M. rewrite H in M. lia. }
+    destruct (exec_local unit (init cfg) _ _ _ _ _ _ _ E) as [_ [-> F]]. rewrite (F g2).
+    apply run_from_ni. exact H.
   Qed.
 
-  Theorem fresh_per_run before after fuel cfg s g o s' g' :
-    nth_error (process (before ++ (fuel, cfg, s) :: after) g) (length before) = Some o ->
-    o_touches _ _ _ o = O ->
-    observable (run fuel cfg s' g') = observable o.
+  (* a touch-free run leaves the generator-like state exactly as the foreign operations made it: it
+     consumed two blocks of the schedule per evaluator call and did nothing else to G *)
+  Lemma apply_foreign_app a b g : apply_foreign G (a ++ b) g = apply_foreign G b (apply_foreign G a g).
+  Proof. unfold apply_foreign. apply fold_left_app. Qed.
+
+  Lemma concat_firstn_pop2 m (s : schedule G) :
+    concat (firstn (S (S m)) s) =
+    fst (pop G s) ++ fst (pop G (snd (pop G s))) ++ concat (firstn m (snd (pop G (snd (pop G s))))).
   Proof.
-    intros Hn Ht. destruct (process_nth before fuel cfg s after g) as [g0 E]. rewrite E in Hn.
-    injection Hn as <-. apply (non_interference fuel cfg s s' g0 g' Ht).
+    destruct s as [|b1 [|b2 s2]]; cbn [pop fst snd firstn concat].
+    - rewrite firstn_nil. reflexivity.
+    - rewrite firstn_nil. reflexivity.
+    - reflexivity.
+  Qed.
+
+  Lemma run_from_global fuel : forall cfg s g t l hist k,
+    touches (run_from fuel cfg s g t l hist k) = k ->
+    exists more, trace (run_from fuel cfg s g t l hist k) = hist ++ more /\
+                 global (run_from fuel cfg s g t l hist k) = apply_foreign G (concat (firstn (2 * length more) s)) g.
+  Proof.
+    induction fuel as [|n IH]; intros cfg s g t l hist k H; cbn [Rng.run_from] in *.
+    - destruct (decide cfg hist) as [[p x]|]; exists []; rewrite app_nil_r; split; reflexivity.
+    - destruct (decide cfg hist) as [[p x]|]; [|exists []; rewrite app_nil_r; split; reflexivity].
+      pose proof (concat_firstn_pop2) as C.
+      destruct (pop G s) as [b1 s1] eqn:P1. destruct p.
+      + destruct (exec (sampler cfg) (apply_foreign G b1 g) t l) as [[[[g' t'] l'] a] k'] eqn:E1.
+        destruct (pop G s1) as [b2 s2] eqn:P2.
+        assert (k' = O) as ->.
+        { pose proof (run_from_touches_ge n cfg s2 (apply_foreign G b2 g') t' l'
+                        (hist ++ [(request cfg x (Some a), evaluator (request cfg x (Some a)))]) (k + k')) as M.
+          rewrite H in M. lia. }
+        destruct (exec_local Smp (sampler cfg) _ _ _ _ _ _ _ E1) as [-> _].
+        rewrite Nat.add_0_r in *. destruct (IH _ _ _ _ _ _ _ H) as [more [Ht Hg]].
+        exists ((request cfg x (Some a), evaluator (request cfg x (Some a))) :: more). split.
+        * rewrite Ht, <- app_assoc. reflexivity.
+        * rewrite Hg. replace (2 * length ((request cfg x (Some a), evaluator (request cfg x (Some a))) :: more))
+            with (S (S (2 * length more))) by (cbn [length]; lia).
+          rewrite C, P1. cbn [fst snd]. rewrite P2. cbn [fst snd]. rewrite !apply_foreign_app. reflexivity.
+      + destruct (pop G s1) as [b2 s2] eqn:P2.
+        rewrite Nat.add_0_r in *. destruct (IH _ _ _ _ _ _ _ H) as [more [Ht Hg]].
+        exists ((request cfg x None, evaluator (request cfg x None)) :: more). split.
+        * rewrite Ht, <- app_assoc. reflexivity.
+        * rewrite Hg. replace (2 * length ((request cfg x None, evaluator (request cfg x None)) :: more))
+            with (S (S (2 * length more))) by (cbn [length]; lia).
+          rewrite C, P1. cbn [fst snd]. rewrite P2. cbn [fst snd]. rewrite !apply_foreign_app. reflexivity.
+  Qed.
+
+  Theorem leaves_global_alone fuel cfg s g t :
+    touches (run fuel cfg s g t) = O ->
+    global (run fuel cfg s g t) = apply_foreign G (concat (firstn (2 * length (trace (run fuel cfg s g t))) s)) g.
+  Proof.
+    unfold Rng.run. intros H.
+    destruct (exec (init cfg) g t (seed_of_config cfg)) as [[[[g0 t0] l0] u] k] eqn:E.
+    assert (k = O) as ->.
+    { pose proof (run_from_touches_ge fuel cfg s g0 t0 l0 [] k) as M. rewrite H in M. lia. }
+    destruct (exec_local unit (init cfg) _ _ _ _ _ _ _ E) as [-> _].
+    destruct (run_from_global fuel cfg s g t0 l0 [] O H) as [more [Ht Hg]]. rewrite Hg, Ht. reflexivity.
+  Qed.
+
+  (* OTHER RUNS INSIDE THIS ONE.  A touch-free run is, for everybody else, an operation on the
+     generator-like state alone (it hands the tables back unchanged, whatever G it starts from) ... *)
+  Theorem touch_free_run_is_foreign fuel cfg s g t :
+    touches (run fuel cfg s g t) = O ->
+    forall s' g', table (run fuel cfg s' g' t) = t /\ touches (run fuel cfg s' g' t) = O.
+  Proof.
+    intros H s' g'. destruct (non_interference fuel cfg s s' g g' t H) as [_ [Ht [Hb _]]]. split; assumption.
+  Qed.
+
+  (* ... so complete other (touch-free) runs executed at any schedule point of a run -- inside its evaluator,
+     in an observer between its evaluations, any number of them -- do not change what the run does *)
+  Theorem interleaved_runs fuel cfg s g t (others : list (list (nat * Cfg * schedule G))) g' :
+    touches (run fuel cfg s g t) = O ->
+    Forall (Forall (fun j : nat * Cfg * schedule G => touches (run (fst (fst j)) (snd (fst j)) (snd j) g t) = O)) others ->
+    let s' := map (map (fun j : nat * Cfg * schedule G => run_as_foreign (fst (fst j)) (snd (fst j)) (snd j) t)) others in
+    observable (run fuel cfg s' g' t) = observable (run fuel cfg s g t) /\
+    table (run fuel cfg s' g' t) = t /\
+    Forall (Forall (fun j : nat * Cfg * schedule G => forall g0, table (run (fst (fst j)) (snd (fst j)) (snd j) g0 t) = t)) others.
+  Proof.
+    intros H Ho s'. destruct (non_interference fuel cfg s s' g g' t H) as [E [_ [Ht _]]].
+    split; [exact E|]. split; [exact Ht|].
+    eapply Forall_impl; [|exact Ho]. intros blk Hb. eapply Forall_impl; [|exact Hb].
+    intros j Hj g0. apply (touch_free_run_is_foreign _ _ _ _ _ Hj (snd j) g0).
+  Qed.
+
+  (* SEQUENTIAL RUNS.  In a process whose runs are all touch-free the tables never change, and every run
+     -- whatever ran before it, whatever the foreign operations did -- is observably the run of the same
+     configuration alone in a fresh process (empty schedule, any generator-like state). *)
+  Lemma process_independent jobs : forall g t g',
+    Forall (fun o => touches o = O) (process jobs g t) ->
+    map observable (process jobs g t) =
+      map (fun j : nat * Cfg * schedule G => observable (run (fst (fst j)) (snd (fst j)) [] g' t)) jobs /\
+    Forall (fun o => table o = t) (process jobs g t).
+  Proof.
+    induction jobs as [|[[f c] s] jobs IH]; intros g t g' H; cbn [Rng.process map] in *; [split; constructor|].
+    inversion H as [|o os Ho Hos]; subst.
+    destruct (non_interference f c s [] g g' t Ho) as [E [_ [_ Ht]]].
+    rewrite Ht in Hos |- *. destruct (IH _ t g' Hos) as [IH1 IH2]. split.
+    - cbn [fst snd]. rewrite E, IH1. reflexivity.
+    - constructor; [exact Ht | exact IH2].
+  Qed.
+
+  Lemma process_app before : forall rest g t,
+    Forall (fun o => touches o = O) (process before g t) ->
+    exists g0, process (before ++ rest) g t = process before g t ++ process rest g0 t.
+  Proof.
+    induction before as [|[[f c] s] before IH]; intros rest g t H; cbn [app Rng.process] in *.
+    - exists g. reflexivity.
+    - inversion H as [|o os Ho Hos]; subst.
+      destruct (non_interference f c s s g g t Ho) as [_ [_ [Ht _]]]. rewrite Ht in Hos |- *.
+      destruct (IH rest _ t Hos) as [g0 E]. exists g0. rewrite E. reflexivity.
+  Qed.
+
+  Lemma process_length jobs : forall g t, length (process jobs g t) = length jobs.
+  Proof. induction jobs as [|[[f c] s] jobs IH]; intros g t; cbn [Rng.process length]; [reflexivity | rewrite IH; reflexivity]. Qed.
+
+  Theorem fresh_per_run before after fuel cfg s g t o s' g' :
+    Forall (fun o => touches o = O) (process before g t) ->
+    nth_error (process (before ++ (fuel, cfg, s) :: after) g t) (length before) = Some o ->
+    touches o = O ->
+    observable (run fuel cfg s' g' t) = observable o.
+  Proof.
+    intros Hb Hn Ht. destruct (process_app before ((fuel, cfg, s) :: after) g t Hb) as [g0 E]. rewrite E in Hn.
+    rewrite nth_error_app2 in Hn by (rewrite process_length; lia).
+    rewrite process_length, Nat.sub_diag in Hn. cbn [Rng.process nth_error] in Hn. injection Hn as <-.
+    apply (non_interference fuel cfg s s' g0 g' t Ht).
   Qed.
 
   (* SEED MATTERS (partial: the injectivity premises are properties of NumPy's default_rng and of
      the distributions, checked on the implementation, not proved). *)
-  Theorem seed_matters (seed : Cfg -> Z) cfg1 cfg2 g :
+  Theorem seed_matters (seed : Cfg -> Z) cfg1 cfg2 g t :
     (forall c1 c2, seed c1 <> seed c2 -> seed_of_config c1 <> seed_of_config c2) ->
-    (forall l1 l2 a1 a2 g1 g2 g1' g2' l1' l2' t1 t2, l1 <> l2 ->
-        exec (sampler cfg1) g1 l1 = (g1', l1', a1, t1) ->
-        exec (sampler cfg2) g2 l2 = (g2', l2', a2, t2) -> a1 <> a2) ->
+    (forall l1 l2 g1 g2 t1 t2 g1' g2' t1' t2' l1' l2' u1 u2 k1 k2, l1 <> l2 ->
+        exec (init cfg1) g1 t1 l1 = (g1', t1', l1', u1, k1) ->
+        exec (init cfg2) g2 t2 l2 = (g2', t2', l2', u2, k2) -> l1' <> l2') ->
+    (forall l1 l2 a1 a2 g1 g2 t1 t2 g1' g2' t1' t2' l1' l2' k1 k2, l1 <> l2 ->
+        exec (sampler cfg1) g1 t1 l1 = (g1', t1', l1', a1, k1) ->
+        exec (sampler cfg2) g2 t2 l2 = (g2', t2', l2', a2, k2) -> a1 <> a2) ->
     seed cfg1 <> seed cfg2 ->
-    first_sample G L V drawG drawL Cfg Smp seed_of_config sampler cfg1 g <>
-    first_sample G L V drawG drawL Cfg Smp seed_of_config sampler cfg2 g.
+    first_sample G T L V drawG drawL Cfg Smp seed_of_config init sampler cfg1 g t <>
+    first_sample G T L V drawG drawL Cfg Smp seed_of_config init sampler cfg2 g t.
   Proof.
-    intros Hs Hi Hne. unfold first_sample.
-    destruct (exec (sampler cfg1) g (seed_of_config cfg1)) as [[[g1' l1'] a1] t1] eqn:E1.
-    destruct (exec (sampler cfg2) g (seed_of_config cfg2)) as [[[g2' l2'] a2] t2] eqn:E2.
-    exact (Hi _ _ _ _ _ _ _ _ _ _ _ _ (Hs _ _ Hne) E1 E2).
+    intros Hs Hi0 Hi Hne. unfold first_sample.
+    destruct (exec (init cfg1) g t (seed_of_config cfg1)) as [[[[g1 t1] l1] u1] k1] eqn:I1.
+    destruct (exec (init cfg2) g t (seed_of_config cfg2)) as [[[[g2 t2] l2] u2] k2] eqn:I2.
+    destruct (exec (sampler cfg1) g1 t1 l1) as [[[[g1' t1'] l1'] a1] n1] eqn:E1.
+    destruct (exec (sampler cfg2) g2 t2 l2) as [[[[g2' t2'] l2'] a2] n2] eqn:E2.
+    refine (Hi _ _ _ _ _ _ _ _ _ _ _ _ _ _ _ _ _ E1 E2).
+    exact (Hi0 _ _ _ _ _ _ _ _ _ _ _ _ _ _ _ _ (Hs _ _ Hne) I1 I2).
   Qed.
 End Machine.
 
-(* ---- the premise is necessary: a sampler that draws from the global generator interferes ---------- *)
+(* ---- the premise is necessary (1): a sampler that draws from the global generator interferes -------- *)
 Definition bad_script : script := {| s_calls := [(true, 5%Z, 7%Z)]; s_exit := 0%Z |}.
-Definition bad_run (g : Z) : outcome Z Z Z :=
-  run Z (list Z) Z r_drawG r_drawL script Z Z Z Z r_seed (fun _ => Global (fun v => Ret v)) r_request
-      (fun rq => rq) r_decide r_exit 2 bad_script [] g.
+Definition bad_run (g : Z) : outcome Z Z Z Z :=
+  run Z Z (list Z) Z r_drawG r_drawL script Z Z Z Z r_seed r_init (fun _ => Global (fun v => Ret v)) r_request
+      (fun rq => rq) r_decide r_exit 2 bad_script [] g 0%Z.
 
 Lemma global_sampler_interferes :
-  o_trace _ _ _ (bad_run 1%Z) <> o_trace _ _ _ (bad_run 2%Z) /\ o_touches _ _ _ (bad_run 1%Z) = 1.
+  o_trace _ _ _ _ (bad_run 1%Z) <> o_trace _ _ _ _ (bad_run 2%Z) /\ o_touches _ _ _ _ (bad_run 1%Z) = 1.
 Proof. split; [vm_compute; discriminate | vm_compute; reflexivity]. Qed.
 
+(* ---- the premise is necessary (2): a run that WRITES the tables is seen by the next run ---------------
+   (a module-level default dictionary updated in place, a generator cached on the configuration object, a
+   class attribute set by __init__): the start-up bumps a counter in T, the sampler's output depends on it.
+   Two runs of ONE configuration in one process then differ, and the writes are counted. *)
+Definition leaky_process (g t : Z) : list (outcome Z Z Z Z) :=
+  process Z Z (list Z) Z r_drawG r_drawL script Z Z Z Z r_seed
+          (fun _ => Write Z.succ (Ret tt)) (fun _ => Read (fun t => Local (fun v => Ret (v + t)%Z))) r_request
+          (fun rq => rq) r_decide r_exit [(2, bad_script, []); (2, bad_script, [])] g t.
+
+Lemma table_writer_interferes :
+  map (o_trace _ _ _ _) (leaky_process 0%Z 0%Z) = [[(6, 6)]; [(7, 7)]]%Z /\
+  map (o_touches _ _ _ _) (leaky_process 0%Z 0%Z) = [1; 1] /\
+  map (o_table _ _ _ _) (leaky_process 0%Z 0%Z) = [1; 2]%Z.
+Proof. repeat split; vm_compute; reflexivity. Qed.
+
 (* ---- the replay instance reproduces its script under every schedule ------------------------------- *)
-Lemma replay_touches c s g : o_touches _ _ _ (replay c s g) = O ->
-  forall s' g', (o_trace _ _ _ (replay c s' g'), o_exit _ _ _ (replay c s' g'), o_complete _ _ _ (replay c s' g'))
-              = (o_trace _ _ _ (replay c s g), o_exit _ _ _ (replay c s g), o_complete _ _ _ (replay c s g)).
+Lemma replay_touches c s g t : o_touches _ _ _ _ (replay c s g t) = O ->
+  forall s' g', (o_trace _ _ _ _ (replay c s' g' t), o_exit _ _ _ _ (replay c s' g' t), o_complete _ _ _ _ (replay c s' g' t))
+              = (o_trace _ _ _ _ (replay c s g t), o_exit _ _ _ _ (replay c s g t), o_complete _ _ _ _ (replay c s g t)).
 Proof.
   intros H s' g'. unfold replay in *.
-  exact (proj1 (non_interference Z (list Z) Z r_drawG r_drawL script Z Z Z Z r_seed r_sampler r_request
-                 (r_lookup (s_calls c)) r_decide r_exit (S (length (s_calls c))) c s s' g g' H)).
+  exact (proj1 (non_interference Z Z (list Z) Z r_drawG r_drawL script Z Z Z Z r_seed r_init r_sampler r_request
+                 (r_lookup (s_calls c)) r_decide r_exit (S (length (s_calls c))) c s s' g g' t H)).
 Qed.
